@@ -804,7 +804,9 @@ impl Rasn {
                         ..Default::default()
                     })
                 } else {
-                    Ok(self.inner_name(split[1], split[2]).to_token_stream())
+                    // the parent name arrives as written in the ASN.1 source
+                    let parent = self.to_rust_title_case(split[2]).to_string();
+                    Ok(self.inner_name(split[1], &parent).to_token_stream())
                 }
             } else {
                 Ok(self.to_rust_title_case(t))
